@@ -33,7 +33,23 @@
 //! generator; the reference run uses the *same* session configuration (only the pool / disk limits differ),
 //! so that plan-variant differences (C02's subject) cannot be blamed on the memory limit.
 //!
-//! Sensitivity probes: see the end of this header (filled in after running them).
+//! **Sensitivity probes** (patches in `crates/vf-res/probes/`, run with `tools/mutrun <patch> -- ./check C18
+//! quick`; all on VERIF_SEED=0):
+//! * `c18-p1-sort-drops-single-batch-remainder.diff` — `ExternalSorter::sort` spills the in-memory remainder
+//!   only when it holds more than one batch (a one-batch remainder is lost) → VIOLATION after 12 evaluations
+//!   ("result under the memory limit differs from the unlimited result (spill_count=1): expected 9600 rows,
+//!   got 9566", sort-merge join over spilling sorts).
+//! * `c18-p2-sort-forgets-merge-reservation-on-error.diff` — on the out-of-memory error path of
+//!   `reserve_memory_for_batch_and_maybe_spill` the merge reservation is `mem::forget`-ed → VIOLATION after 46
+//!   evaluations ("resources not released: (4096, 0, 0) after the stream (failed with ResourcesExhausted…), the
+//!   plan and the tokio runtime were dropped" — exactly `sort_spill_reservation_bytes` of the case).
+//! * `c18-p3-spill-file-leaked-arc.diff` — `InProgressSpillFile::finish` leaks one `Arc` of the finished spill
+//!   file → VIOLATION ("resources not released: (0, 223568, 4)": disk bytes accounted and 4 files left).
+//!
+//! Related finding (made by C20, see c20.rs): under a memory limit the nested-loop join's fallback re-executes
+//! its left child and panics when a RepartitionExec is below it. With MemTable inputs that plan shape did not
+//! come up in C18's runs (the small side is planned as a repartition-free left input), so nothing is excluded
+//! here; should a thorough run meet it, it is the same defect (fix: /verif/fixes/C20-nlj-fallback-…diff).
 use crate::data::{DataSpec, Which, multiset_diff, sequence_diff, sub_multiset};
 use crate::env::*;
 use crate::query::*;
@@ -248,7 +264,7 @@ impl Property for C18 {
             .boxed()
     }
     fn budget(&self, tier: Tier) -> Budget {
-        Budget::new(tier.pick(104, 8_000), tier.pick(8, 16)).min_nontrivial(tier.pick(15, 1_000)).case_timeout(600).shrink(60, 300)
+        Budget::new(tier.pick(104, 8_000), tier.pick(8, 16)).min_nontrivial(tier.pick(15, 1_000)).case_timeout(600).shrink(40, 120)
     }
     fn rule(&self) -> String {
         "generated tables (2k-20k rows, strings 8-200 chars) x one query shape (sort/TopK/agg/distinct/hash,SMJ,NL joins/window/union/scan) x session config (batch_size, partitions, spill codec, \
